@@ -804,6 +804,57 @@ theorem C12_same (order : List String) (base : Out) (cs : List Combo)
           · exact ih h
     exact this cs ho
 
+
+/-! ### glyph by glyph: what one glyph shows does not depend on the other glyphs of the font -/
+
+/-- what the option combination (specialise or not, post-processing action) does to ONE glyph's drawing -/
+def glyphFn (sp : Bool) (a : Action) (d : Drawing) : Drawing :=
+  actionDrawing a (if sp then specDrawing d else d)
+
+theorem glyphFn_plain (sp : Bool) (a : Action) (d : Drawing) (h : plainDrawing d = true) : glyphFn sp a d = d := by
+  simp only [plainDrawing, Bool.and_eq_true, Bool.not_eq_true'] at h
+  unfold glyphFn
+  rw [actionDrawing_id a _ (by cases sp <;> simp [C12_specDrawing_id d h.1.1 h.1.2, h.2])]
+  cases sp <;> simp [C12_specDrawing_id d h.1.1 h.1.2]
+
+/-- **C12_glyphwise**: in every font the model produces, for every combination, the drawings are the reference
+drawings mapped GLYPH BY GLYPH through one function of the combination alone: no glyph's drawing depends on
+another glyph of the font (its outline, its width, its position in the glyph order).  An encoder that shares
+anything between glyphs (a memo of specialised programs, subroutines) has to be invisible in the drawings. -/
+theorem C12_glyphwise (order : List String) (base : Out) (c : Combo) (o : Out)
+    (h : modelFont order base c = .ok o) :
+    ∃ sp a, compileOTF c.1 c.2.1 c.2.2 = .ok (sp, a) ∧ o.drawing = base.drawing.map (glyphFn sp a) := by
+  unfold modelFont at h
+  cases hc : compileOTF c.1 c.2.1 c.2.2 with
+  | error e => rw [hc] at h; cases h
+  | ok r =>
+    obtain ⟨sp, a⟩ := r
+    rw [hc] at h
+    simp only at h
+    cases hq : txQuirk order (base.drawing.all fun d => d.isEmpty) a with
+    | some e => rw [hq] at h; cases h
+    | none =>
+      rw [hq] at h
+      simp only [Except.ok.injEq] at h
+      refine ⟨sp, a, rfl, ?_⟩
+      rw [← h]
+      cases sp <;> simp [glyphFn, Function.comp_def]
+
+/-- **C12_plain_glyph**: a glyph without redundant drawing operations is drawn exactly as in the reference font
+under every combination that succeeds, WHATEVER the other glyphs of the font are (plain or not, look-alikes
+or not): no hypothesis on the rest of the font. -/
+theorem C12_plain_glyph (order : List String) (base : Out) (c : Combo) (o : Out) (k : Nat) (d : Drawing)
+    (h : modelFont order base c = .ok o) (hk : base.drawing[k]? = some d) (hp : plainDrawing d = true) :
+    o.drawing[k]? = some d := by
+  obtain ⟨sp, a, _, hd⟩ := C12_glyphwise order base c o h
+  rw [hd, getElem?_map, hk, Option.map_some, glyphFn_plain sp a d hp]
+
+/-- two different plain drawings stay different under every combination: look-alike glyphs (same operands,
+one operator different) are never confused -/
+theorem C12_glyphFn_injective_plain (sp : Bool) (a : Action) (d d' : Drawing)
+    (h : plainDrawing d = true) (h' : plainDrawing d' = true) (he : glyphFn sp a d = glyphFn sp a d') : d = d' := by
+  rwa [glyphFn_plain sp a d h, glyphFn_plain sp a d' h'] at he
+
 /-! ### non-vacuity, and the finding in one line each -/
 
 /-- the property's 18 combinations as `Combo`s -/
@@ -844,5 +895,25 @@ example : specTopo [.rmoveto 0 0, .rlineto 10 0, .rlineto 0 0, .rlineto 20 0]
 /-- a merged run may sum to zero and still stays a (zero-length) line -/
 example : specTopo [.rmoveto 0 0, .rlineto 10 0, .rlineto (-10) 0, .rlineto 0 5]
     = [.rmoveto 0 0, .rlineto 0 0, .rlineto 0 5] := by decide
+
+/-- two bars, and ONE contour through the same eight points: the pen commands carry the same operands and differ
+in one operator (rmoveto / rlineto) -/
+def barsBase : Out :=
+  { tag := .v1
+    drawing := [[.moveTo 100 100, .lineTo 400 100, .lineTo 400 200, .lineTo 100 200, .closePath,
+                 .moveTo 100 300, .lineTo 400 300, .lineTo 400 400, .lineTo 100 400, .closePath],
+                [.moveTo 100 100, .lineTo 400 100, .lineTo 400 200, .lineTo 100 200,
+                 .lineTo 100 300, .lineTo 400 300, .lineTo 400 400, .lineTo 100 400, .closePath]]
+    adv := [500, 500], layout := ["", "", ""] }
+
+example : plainFont ["equal", "zigzag"] barsBase := by unfold plainFont; decide
+example : (barsBase.drawing.map toCmds).map (fun l => l.map cdelta) =
+    [[(100, 100), (300, 0), (0, 100), (-300, 0), (0, 100), (300, 0), (0, 100), (-300, 0)],
+     [(100, 100), (300, 0), (0, 100), (-300, 0), (0, 100), (300, 0), (0, 100), (-300, 0)]] := by decide
+example : holdsSame combos18 (combos18.map (modelFont ["equal", "zigzag"] barsBase)) = true :=
+  C12_same _ _ _ (by decide) (by unfold plainFont; decide)
+/-- what a program shared between the two look-alikes gives: the second glyph drawn as the first -/
+example : holdsSame [(.int 0, some 1, none), (.int 1, some 1, none)]
+    [.ok barsBase, .ok { barsBase with drawing := [barsBase.drawing[0]!, barsBase.drawing[0]!] }] = false := by decide
 
 end Ufo2ft.C12
